@@ -11,7 +11,8 @@ RULE = ("each of the sixteen PCBO.add_constraint_G / add_constraint_eq_G methods
         "models or nested sat expressions (depth <= 2), overlapping operands allowed; lam in {.5,1,3}; the model may "
         "already carry another logical constraint. Oracle: exact difference after - before tabulated over the "
         "operands' variables against a plain-Python gate evaluator. Non-trivial = relation neither constant-true nor "
-        "constant-false; distinct = digest of (method, operand descriptions, lam)")
+        "constant-false; distinct = digest of (method, operand descriptions, lam)"
+        ' Also: positional lam for the fixed-arity methods, operand objects shared across gates, in-place-edited named operands, long-monomial and constant operands, and between two gates: trivially decided inequalities, round(H, -1/0/2), copy() (recorded constraints and validity must stay).')
 TIERS = {"quick": {"shards": 8, "cases": 2500}, "thorough": {"shards": 16, "cases": 30000}}
 FLOOR_BASE = {"quick": 300, "thorough": 8000}    # case counts the floors below were calibrated for; the launcher scales them
 METHODS = [g for g in _sat.ALL] + ["eq_" + g for g in _sat.ALL]
